@@ -190,8 +190,14 @@ func runProp(p *props.Prop, tier, repo, verif string, seed int64, known *core.Kn
 		st := "skipped (anchor text changed)"
 		if c.Applied && c.Detected {
 			st = "detected"
+			if c.Silent {
+				st = "silent (as required)"
+			}
 		} else if c.Applied {
 			st = "MISSED"
+			if c.Silent {
+				st = "FALSE ALARM: " + c.Note
+			}
 		}
 		fmt.Printf("  control %-40s %s\n", c.Name, st)
 	}
@@ -204,7 +210,7 @@ func runProp(p *props.Prop, tier, repo, verif string, seed int64, known *core.Kn
 }
 
 func runControl(p *props.Prop, ctl props.Control, repo, tier string, base *core.Result) core.ControlResult {
-	cr := core.ControlResult{Name: ctl.Name, Expect: ctl.Expect + " " + ctl.ExpectConstruct}
+	cr := core.ControlResult{Name: ctl.Name, Expect: ctl.Expect + " " + ctl.ExpectConstruct, Silent: ctl.Silent}
 	path := filepath.Join(repo, ctl.File)
 	src, err := os.ReadFile(path)
 	if err != nil || strings.Count(string(src), ctl.Old) != 1 {
@@ -224,6 +230,16 @@ func runControl(p *props.Prop, ctl props.Control, repo, tier string, base *core.
 		if o.Status != core.Holds {
 			baseBad[o.Key()] = true
 		}
+	}
+	if ctl.Silent {
+		cr.Detected = true
+		for _, o := range c.Obs {
+			if o.Status != core.Holds && !baseBad[o.Key()] {
+				cr.Detected = false
+				cr.Note = "raised: " + o.Key() + " at " + o.Pos
+			}
+		}
+		return cr
 	}
 	for _, o := range c.Obs {
 		if o.Status == core.Violated && o.Rule == ctl.Expect && strings.Contains(o.Construct, ctl.ExpectConstruct) && !baseBad[o.Key()] {
